@@ -491,6 +491,7 @@ def backward_slice(body, place, limit=600):
     arguments) and writes through `&mut` borrows handed to calls. Returns dict with
     'calls': {callee path}, 'args': {arg index}, 'fields': {field names}, 'consts': [values], 'locals': {locals}"""
     calls, args, fields, consts = set(), set(), set(), []
+    call_sites = set()
     seen = set()
     work = [place[0]]
     for e in place[1:]:
@@ -539,6 +540,7 @@ def backward_slice(body, place, limit=600):
                 if "callee" in t:
                     calls.add(callee(t))
                     calls.add(callee_decl(t))
+                call_sites.add(d[1])
                 ops = list(t["args"])
             for o in ops:
                 if o[0] == "k":
@@ -554,11 +556,12 @@ def backward_slice(body, place, limit=600):
         for (bb, t, ai) in mut_writers.get(l, []):
             if "callee" in t:
                 calls.add(callee(t))
+            call_sites.add(bb)
             for o in t["args"]:
                 p = op_place(o)
                 if p is not None:
                     work.append(p[0])
-    return {"calls": calls, "args": args, "fields": fields, "consts": consts, "locals": seen}
+    return {"calls": calls, "args": args, "fields": fields, "consts": consts, "locals": seen, "call_sites": call_sites}
 
 
 def base_local(body, place, through=None, depth=0):
